@@ -189,8 +189,7 @@ func (c *Class) Evaluation(
 		parentNode := base.ClassNode{Frame: parentFrame, Class: parentClass}
 
 		if !slices.Contains(base.ClassInheritanceMap[classNode], parentNode) {
-			base.ClassInheritanceMap[classNode] =
-				append(base.ClassInheritanceMap[classNode], parentNode)
+			base.AddParentNode(classNode, parentNode)
 		}
 
 	default:
